@@ -95,6 +95,89 @@ func main() {
 		}
 	})
 	perms(run)
+	deletions(run)
+}
+
+// deletions: for every subset of 2..4 patterns of the small pools, every element and two insertion orders, the router
+// that registered the subset and then deleted the element is compared with a fresh router holding the rest.
+func deletions(run *kit.Run) {
+	type job struct {
+		pool []string
+		set  []string
+	}
+	var jobs []job
+	for _, pool := range small {
+		var rec func(start int, cur []string)
+		rec = func(start int, cur []string) {
+			if len(cur) >= 2 {
+				jobs = append(jobs, job{pool, append([]string(nil), cur...)})
+			}
+			if len(cur) == 4 {
+				return
+			}
+			for i := start; i < len(pool); i++ {
+				rec(i+1, append(cur, pool[i]))
+			}
+		}
+		rec(0, nil)
+	}
+	run.Parallel(len(jobs), func(j int) {
+		jb := jobs[j]
+		r := rand.New(rand.NewPCG(uint64(j), 5))
+		probes := probeSet(r, jb.pool, []string{"GET"})
+		opts := [][]string{{"redirect", "405", "options"}, {"ignore"}, {}}[j%3]
+		for del := range jb.set {
+			var rest []string
+			for i, p := range jb.set {
+				if i != del {
+					rest = append(rest, p)
+				}
+			}
+			fresh, _ := fox.New(options(opts)...)
+			ok := true
+			for _, p := range rest {
+				if _, err := fresh.Handle("GET", p, func(fox.Context) {}); err != nil {
+					ok = false
+				}
+			}
+			if !ok {
+				continue
+			}
+			for _, reversed := range []bool{false, true} {
+				f, _ := fox.New(options(opts)...)
+				order := append([]string(nil), jb.set...)
+				if reversed {
+					for i, k := 0, len(order)-1; i < k; i, k = i+1, k-1 {
+						order[i], order[k] = order[k], order[i]
+					}
+				}
+				built := true
+				for _, p := range order {
+					if _, err := f.Handle("GET", p, func(fox.Context) {}); err != nil {
+						built = false
+					}
+				}
+				if !built {
+					continue
+				}
+				if _, err := f.Delete("GET", jb.set[del]); err != nil {
+					run.Violate(fmt.Sprintf("delete-failed|%v|%s", jb.set, jb.set[del]), fmt.Sprintf("a registered route cannot be deleted: %v", err), map[string]any{"set": jb.set, "delete": jb.set[del]})
+					continue
+				}
+				run.Count("insert_then_delete_routers", 1)
+				for _, q := range probes {
+					a, b := observe(f, q), observe(fresh, q)
+					run.Eval(1)
+					if !same(a, b) {
+						run.Violate(fmt.Sprintf("delete-dependent|%v|-%s|%s", jb.set, jb.set[del], q), fmt.Sprintf("a router that registered %v (in this order) and deleted %s answers differently from a fresh router holding %v\nrequest: %s\nafter the deletion: %s\nfresh:              %s\noptions: %v", order, jb.set[del], rest, q, a, b, opts), map[string]any{"order": order, "delete": jb.set[del], "request": q})
+						break
+					}
+				}
+			}
+		}
+		run.Case(fmt.Sprintf("delete|%v", jb.set), true)
+	})
+	run.SetExtra("exhaustive_deletions", fmt.Sprintf("every subset of 2..4 routes of %d seven-pattern pools (%d subsets) x every deleted element x two insertion orders: enumerated completely", len(small), len(jobs)))
 }
 
 type outcome struct {
@@ -236,6 +319,12 @@ var small = [][]string{
 	{"/u/id:{a}", "/u/id:{a}/c", "/u/{b}", "/u/i", "/u/*{w}/c", "/u/", "/u"},
 	{"/a/*{x}/b/*{y}/c/foo", "/a/*{x}/b/*{y}/c/bar", "/a/*{x}/b/*{y}/c/foo/baz", "/a/*{x}/b/*{y}/c/", "/a/*{x}/b", "/a/*{x}/b/*{y}/d", "/a/q"},
 	{"h.com/x", "h.com.au/x", "h.com/xy", "h.com.au/", "h.co/x", "{s}.com/x", "/x"},
+	// hostnames that end in a parameter label and hostnames that continue them
+	{"{t}/ping", "{t}.api.com/v1", "{t}.api.com/", "{t}.api/x", "x.{t}/p", "x.{t}.org/p", "/ping"},
+	// a hostname and its continuations by a hyphen, a label, a letter
+	{"api/v1", "api-int/v1", "api.com/v1", "api/", "apix/v1", "api.{r}/v1", "/v1"},
+	// static text next to wildcards whose first byte sorts before '*' or after '{'
+	{"/f/*{p}", "/f/$m", "/f/~n", "/f/{q}/x", "/f/", "/f/!o/x", "/f/m"},
 }
 
 // perms enumerates every insertion order of every subset of <= 5 routes of the small pools.
